@@ -68,9 +68,19 @@ func (vfs *MemFS) searchNode(path string, slMode slMode) (
 	for pi.Next() {
 		name := pi.Part()
 
+		// A name is looked up in a directory only if the user has search permission on this directory,
+		// including the one where the walk starts (the root of the file system, of a volume or of a view).
 		parent.mu.RLock()
+		ok := parent.checkPermission(avfs.OpenLookup, vfs.User())
 		child = parent.children[name]
 		parent.mu.RUnlock()
+
+		if !ok {
+			child = nil
+			err = vfs.err.PermDenied
+
+			return
+		}
 
 		if child == nil {
 			err = vfs.err.NoSuchDir
@@ -85,16 +95,6 @@ func (vfs *MemFS) searchNode(path string, slMode slMode) (
 		case *dirNode:
 			if pi.IsLast() {
 				err = vfs.err.FileExists
-
-				return
-			}
-
-			c.mu.RLock()
-			ok := c.checkPermission(avfs.OpenLookup, vfs.User())
-			c.mu.RUnlock()
-
-			if !ok {
-				err = vfs.err.PermDenied
 
 				return
 			}
